@@ -162,6 +162,11 @@ class Driver:
             plugs.append(p)
         ax = self.call(which)
         delta = dict(zip(ids, plugs))
+        if rng.random() < self.hostile * 0.5 and len(self.tr.stack) == len(plugs) + 1:
+            # hostile: one more id than plugs were constructed (the map names a pattern that was never pushed); the tracker has to
+            # refuse - the machine would run out of stack
+            delta[rng.choice((5, 6))] = self.P.Symbol('never_pushed')
+            self.c('hostile:instantiate_with_missing_plug')
         return self.call('instantiate', ax, delta)
 
     def _quantifier_plug_ok(self, p):
